@@ -113,6 +113,40 @@ pub fn some_value_for(key: &str, t: &mut Tape) -> V {
     }
 }
 
+/// boundary values that have a Cypher literal spelling (C35)
+pub fn boundary_param(t: &mut Tape) -> V {
+    let pool: Vec<V> = vec![
+        V::Null,
+        V::Int(-1),
+        V::Int(i64::MAX),
+        V::Int(i64::MIN + 1),
+        V::Int(1 << 53),
+        V::Float(-0.0),
+        V::Float(0.1),
+        V::Float(1e308),
+        V::Float(-2.5),
+        V::Float(5e-324),
+        V::Bool(false),
+        V::Str(String::new()),
+        V::Str("it's".into()),
+        V::Str("a\\b".into()),
+        V::Str("a\nb".into()),
+        V::Str("tab\there".into()),
+        V::Str("\"q\"".into()),
+        V::Str("é😀".into()),
+        V::Str(" pad ".into()),
+        V::Str("$p0".into()),
+        V::List(vec![]),
+        V::List(vec![V::Int(1), V::Str("a".into()), V::Null]),
+        V::List(vec![V::Float(1.0), V::Int(1)]),
+        V::List(vec![V::List(vec![V::Int(2)])]),
+        V::Map([("a".to_string(), V::Int(1))].into_iter().collect()),
+        V::Map(BTreeMap::new()),
+    ];
+    let i = t.choose(pool.len());
+    pool[i].clone()
+}
+
 pub fn gen_graph(t: &mut Tape) -> RGraph {
     let n = t.choose(7); // 0..=6 nodes
     let mut g = RGraph::default();
@@ -211,15 +245,21 @@ impl<'a, 'b> QGen<'a, 'b> {
         let v = literal_for(key, self.t);
         self.maybe_param(v)
     }
-    fn maybe_param(&mut self, v: V) -> E {
-        if let Some(params) = self.params.as_mut() {
+    pub fn maybe_param(&mut self, v: V) -> E {
+        if self.params.is_some() {
             if self.t.chance(1, 2) {
-                let name = format!("p{}", params.len());
-                params.insert(name.clone(), v);
-                return E::Param(name);
+                // a third of the parameters carry a boundary value instead of the domain value
+                let v = if self.t.chance(1, 3) { boundary_param(self.t) } else { v };
+                return self.new_param(v);
             }
         }
         E::Lit(v)
+    }
+    pub fn new_param(&mut self, v: V) -> E {
+        let params = self.params.as_mut().expect("params enabled");
+        let name = format!("p{}", params.len());
+        params.insert(name.clone(), v);
+        E::Param(name)
     }
 
     fn inline_props(&mut self, key_pool: &[&str]) -> Vec<(String, E)> {
